@@ -274,6 +274,7 @@ def run_relax(case):
     skipped_q = 0
     varied_nl = 0
     chi_nonzero = 0
+    q_mixed = 0
     nfail = 0
     maxdisp_bound = float(W.L.min()) / 2.0
     modes_for = {"lin": o["mode"], "log": o["mode"], "x": "x", "both": "both", "xu": "xu"}
@@ -341,6 +342,8 @@ def run_relax(case):
                         nfail += 1
             if cls == "lin" and np.nanmax(np.abs(obs[:, 3])) > 1e-9:
                 chi_nonzero += 1
+            if 0.0 < np.nanmin(obs[:, 2]) and np.nanmax(obs[:, 2]) < 1.0:
+                q_mixed += 1
             h.update(np.round(np.nan_to_num(obs, nan=-7.0), 9).tobytes())
         if nfile:
             os.remove(nfile)
@@ -354,7 +357,9 @@ def run_relax(case):
     R.states = states
     R.transitions = transitions + len(case["prefix"])
     R.elem = rows
-    R.nontrivial = chi_nonzero > 0 or case["calls"] == ["log"]
+    # some state has a non-zero chi4 (needs origins with different overlap) / for the single-origin variant an overlap strictly
+    # between 0 and 1 in every row
+    R.nontrivial = (chi_nonzero > 0) if case["calls"] != ["log"] else (q_mixed > 0)
     R.notes = {"skipped_q": skipped_q, "varied_nl": varied_nl}
     return R
 
@@ -397,7 +402,8 @@ def run_s4(case):
             groups, margin, sizes = ref
             D, snaps = fresh_objects(W, xs, o["mode"], steps, "lin", nfile)
             cond = None if masks is None else np.array(masks, dtype=bool)
-            res = D.sq4(t=k * 100 * DT, qrange=case["qrange"], condition=cond)
+            # the lag is passed the way a user would type it (0.6, not 3 * 0.2 = 0.6000000000000001)
+            res = D.sq4(t=round(k * 100 * DT, 9), qrange=case["qrange"], condition=cond)
             ncalls += 1
             if max(sizes) >= 2 and len(set(sizes)) >= 1:
                 multi += 1
@@ -445,7 +451,7 @@ def gen_linear(tier, seed):
     for d in (2, 3):
         yield from roots(S, 2, d, 4, "pp", "bulk", {}, calls)
     # unwrapped input, periodic flags set, box smaller than the displacements: no reduction may happen
-    yield from roots(S, 2, 2, 3, "pp", "bulk", {}, calls, L=[2.0, 2.0], ppp_xu=1)
+    yield from roots(S, 2, 2, 3, "pp", "bulk", {}, ["xu", "both"], L=[2.0, 2.0], ppp_xu=1)
     yield from roots(S, 2, 2, 3, "pp", "bulk", {"qconst": "5", "diam": "eq"}, calls)
     if tier == "thorough":
         yield from roots(S, 3, 2, 4, "pp", "bulk", {}, calls)
@@ -464,7 +470,8 @@ def gen_log(tier, seed):
     if tier == "thorough":
         yield from roots(S, 3, 2, 4, "pp", "tri", {"neigh": 1}, calls)
         yield from roots(S, 2, 2, 5, "pp", "bulk", {}, calls)
-        yield from roots(S, 2, 3, 5, "pp", "face", {"mode": "x"}, calls)
+        yield from roots(S, 2, 2, 5, "pp", "face", {"mode": "x"}, calls)
+        yield from roots(S, 2, 3, 4, "pp", "face", {"mode": "x"}, calls)
 
 
 def gen_wrapped(tier, seed):
@@ -476,7 +483,8 @@ def gen_wrapped(tier, seed):
     if tier == "thorough":
         yield from roots(S, 2, 2, 5, "pp", "face", {}, calls)
         yield from roots(S, 2, 3, 4, "pp", "face", {}, calls)
-        yield from roots(S, 3, 2, 4, "pp", "tri", {}, calls)
+        yield from roots(S, 3, 2, 3, "pp", "tri", {}, calls)
+        yield from roots(S, 3, 2, 5, "joint", "tri", {}, calls)
         yield from roots(S, 2, 3, 3, "pp", "face", {}, calls, L=[8.0, 16.0, 8.0])
 
 
@@ -487,10 +495,11 @@ def gen_cage(tier, seed):
     yield from roots(S, 3, 3, 4, "joint", "tri", {"neigh": 1}, ["xu", "x"])
     yield from roots(S, 4, 2, 4, "joint", "tri", {"neigh": 2}, ["xu", "x"])
     if tier == "thorough":
+        yield from roots(S, 3, 2, 4, "pp", "tri", {"neigh": 2}, ["xu"])
         for k in (1, 2):
-            yield from roots(S, 3, 2, 4, "pp", "tri", {"neigh": k}, ["xu"])
             yield from roots(S, 3, 3, 3, "pp", "tri", {"neigh": k}, ["xu", "x"])
             yield from roots(S, 4, 3, 5, "joint", "tri", {"neigh": k}, ["xu", "x"])
+            yield from roots(S, 3, 2, 5, "joint", "tri", {"neigh": k}, ["xu", "x"])
 
 
 def gen_selection(tier, seed):
@@ -516,7 +525,8 @@ def gen_fast(tier, seed):
     yield from roots(S, 2, 3, 3, "pp", "bulk", {"cal": "fast", "a": 0.5}, ["lin"])
     yield from roots(S, 2, 2, 3, "pp", "bulk", {"cal": "slow", "a": 0.5}, ["lin"])
     if tier == "thorough":
-        yield from roots(S, 3, 2, 4, "pp", "bulk", {"cal": "fast"}, ["lin"])
+        yield from roots(S, 3, 2, 3, "pp", "bulk", {"cal": "fast"}, ["lin"])
+        yield from roots(S, 2, 2, 5, "pp", "bulk", {"cal": "fast"}, ["lin"])
         yield from roots(S, 2, 3, 4, "pp", "bulk", {"cal": "fast", "a": 0.5}, ["lin"])
 
 
@@ -580,15 +590,18 @@ def subs(tier, seed):
             bounds={"N": 2 if q else 3, "Tmax": 4 if q else 5}),
         Sub("C06.log", with_seed(gen_log), run_relax,
             rule=hist + "LogDynamics.relaxation on unevenly spaced timesteps, single origin, chi4 == 0; default options N=2 2D/3D T<=4 "
-                        "plus fast / 1-,2-nearest cage / selections / wrapped input on N=3 T<=3",
+                        "plus fast / 1-,2-nearest cage / selections / wrapped input on N=3 T<=3"
+                        + ("" if q else "; N=3 T<=4 with 1-nearest cage, N=2 T<=5 (xu and wrapped)"),
             bounds={"Tmax": 4 if q else 5}),
         Sub("C06.wrapped_eq_unwrapped", with_seed(gen_wrapped), run_relax,
             rule=hist + "particles start next to the box faces so that steps cross them; x-only (ppp=1), xu-only and both inputs of the "
-                        "same trajectory all equal the reference of the unwrapped trajectory; boxes 8^d and 8x16",
+                        "same trajectory all equal the reference of the unwrapped trajectory; boxes 8^d and 8x16; N=2 2D T<=4, 3D T<=3"
+                        + ("" if q else "; 2D T<=5, 3D T<=4, N=3 pp T<=3 / joint T<=5"),
             bounds={"Tmax": 4 if q else 5}),
         Sub("C06.cage", with_seed(gen_cage), run_relax,
             rule=hist + "three/four nearly equidistant particles across a face, neighbour file (1- and 2-nearest of every frame) written by "
-                        "the harness; cage-relative displacement with the list of the origin frame; xu and x input",
+                        "the harness; cage-relative displacement with the list of the origin frame; xu and x input; N=3 2D pp T<=3 (k=1,2), "
+                        "N=3 3D / N=4 2D joint T<=4" + ("" if q else "; N=3 2D pp T<=4 (k=2), 3D pp T<=3, joint T<=5"),
             bounds={"N": "3-4", "Tmax": 4 if q else 5}),
         Sub("C06.selection", with_seed(gen_selection), run_relax,
             rule=hist + "the boolean mask of every frame is part of the appended event: all masks with c selected particles (c=1,2), "
